@@ -515,9 +515,10 @@ TimedKinds == {"ReadPromise", "CreatePromise", "CreatePromiseAndTask", "Complete
 Dev_F3(b) == Last.body.status = CREATED /\ b.timeout <= b.createdOn
 \* the clock reading that counts is the one of the linearization point of the reply
 C04_NoPendingAfterDeadline ==
-  (IsRespond /\ reqs[Last.r].kind \in TimedKinds /\ chk.lint # {}) =>
+  (IsRespond /\ reqs[Last.r].kind \in TimedKinds /\ ~ Last.err) =>
      \A b \in RespBodies :
-        \/ \E tau \in chk.lint : C04_NotPendingAfterDeadline(b, tau)
+        \* (a reply that has no linearization point at all is judged at the tick it was given)
+        \/ \E tau \in (IF chk.lint = {} THEN {Last.t} ELSE chk.lint) : C04_NotPendingAfterDeadline(b, tau)
         \/ "F3" \in Known /\ Dev_F3(b) /\ NoteFinding("F3")
 C04_NoTimeoutBeforeDeadlineT == IsStep => C04_NoTimeoutBeforeDeadline(db, now)
 C04_CompletionShapeT == Steps(C04_CompletionShape)
